@@ -85,6 +85,36 @@ ENGINES['estream'] = {
               'bitstream/mpeg/ts.h replaced by shim/bitstream/mpeg/ts.h (TS_SIZE only is used here)'],
 }
 
+THREAD_MODULES = ['idem', 'queue_sink', 'queue_source', 'queue', 'transfer', 'worker']
+PTHREAD_WRAPS = ['pthread_create', 'pthread_join', 'pthread_self', 'pthread_equal', 'pthread_setname_np',
+                 'pthread_sigmask', 'pthread_setcanceltype', 'setpriority', 'pthread_key_create', 'pthread_key_delete',
+                 'pthread_getspecific', 'pthread_setspecific', 'pthread_mutex_init', 'pthread_mutex_destroy',
+                 'pthread_mutex_lock', 'pthread_mutex_unlock']
+ENGINES['ethread'] = {
+    'src': ['harness/ethread.c'],   # includes harness/ethread_queue.c
+    'sim_src': ['sim/alloc.c', 'sim/umem_sim.c', 'sim/upump_sim.c', 'sim/pthread_sim.c'],
+    'repo_src': ['lib/upipe/ubuf_block_mem.c', 'lib/upipe/ubuf_mem_common.c', 'lib/upipe/ubuf_pic_mem.c',
+                 'lib/upipe/ubuf_pic_common.c', 'lib/upipe/ubuf_sound_mem.c', 'lib/upipe/ubuf_sound_common.c',
+                 'lib/upipe/ubuf_mem.c', 'lib/upipe/ubuf_pic.c', 'lib/upipe/uref_pic_flow.c',
+                 'lib/upipe/udict_inline.c', 'lib/upipe/uref_std.c', 'lib/upipe/upump_common.c',
+                 'lib/upipe/uprobe.c', 'lib/upipe/uprobe_transfer.c', 'lib/upipe/uprobe_prefix.c'] +
+                ['lib/upipe-modules/upipe_%s.c' % m for m in THREAD_MODULES] +
+                ['lib/upipe-pthread/upipe_pthread_transfer.c', 'lib/upipe-pthread/uprobe_pthread_upump_mgr.c',
+                 'lib/upipe-pthread/umutex_pthread.c'],
+    'track_alloc': True,
+    'wrap': PTHREAD_WRAPS,
+    'real': ['lib/upipe-modules/upipe_%s.c' % m for m in THREAD_MODULES] +
+            ['lib/upipe-pthread/upipe_pthread_transfer.c', 'lib/upipe-pthread/uprobe_pthread_upump_mgr.c',
+             'lib/upipe-pthread/umutex_pthread.c', 'lib/upipe/uprobe_transfer.c', 'include/upipe/uqueue.h',
+             'include/upipe/ueventfd.h', 'include/upipe/upipe_helper_input.h', 'include/upipe/upipe_helper_output.h',
+             'include/upipe/upipe_helper_bin_input.h', 'include/upipe/upipe_helper_bin_output.h',
+             'lib/upipe/upump_common.c', 'lib/upipe/uref_std.c', 'lib/upipe/ubuf_block_mem.c', 'lib/upipe/udict_inline.c'],
+    'stubs': SIM_STUBS + ['POSIX threads, mutexes and thread-specific keys (sim/pthread_sim.c, linked with --wrap)',
+                          'event loops (sim/upump_sim.c in place of libev, one per simulated thread) and clock',
+                          'allocator (umem_sim + malloc accounting)',
+                          'application side: driver pump running the plan, mock remote pipes (source / linear / sink), application sinks, recording probes'],
+}
+
 SC = ('interleavings are explored under sequential consistency at the yield points of DESIGN.md 2.1 '
       '(every uatomic operation, every plain ring-element access, every descriptor read/write)')
 
@@ -169,7 +199,7 @@ PIPE_ASSUME = ['one simulated thread; nondeterminism = order of ready pumps, all
                'catalogue = the 12 pipe types listed under real_code; other modules are not exercised']
 for _p in ('C01', 'C04', 'C05', 'C20'):
     PROPS[_p] = {'engine': 'epipe', 'quick_time': 30, 'thorough_time': 600, 'rule': PIPE_RULE, 'assumptions': list(PIPE_ASSUME)}
-PROPS['C12'] = {'engine': 'epipe', 'quick_time': 30, 'thorough_time': 600,
+PROPS['C12'] = {'engine': 'epipe', 'engines': ['epipe', 'ethread'], 'quick_time': 30, 'thorough_time': 600,
     'rule': ('one case = a chain of 1-4 catalogue pipes (or a dup pipe) between the application and mock sinks, and a history of 5-30 operations: '
              'register / unregister up to 4 requests (sink latency, flow format) on the head pipe, provide an answer at a sink where a proxy is lodged '
              '(once or twice), set_output anywhere to NULL / back / a new sink, release a handle, data; probe providers answer at once or never; '
@@ -177,6 +207,8 @@ PROPS['C12'] = {'engine': 'epipe', 'quick_time': 30, 'thorough_time': 600,
     'assumptions': ['in-thread chains only: the cross-queue part of C12 is not covered by this check',
                     'request types exercised: sink latency and flow format']}
 PROPS['C20']['engines'] = ['epipe', 'estream']
+PROPS['C01']['engines'] = ['epipe', 'ethread']
+PROPS['C01']['quick_time'] = 40
 PROPS['C20']['rule'] += (' Second engine (estream): the size / mtu+align / sync-count options of aggregate, chunk_stream, ts_sync, ts_check set in mid-stream '
                         'with allocation failures inside the setter, getters at random instants.')
 PROPS['C20']['assumptions'].append('getter side effects are decided by a differential run: the same plan is executed with and without its getter calls (same choices) and the histories seen by sinks and probes must be identical')
@@ -192,6 +224,26 @@ PROPS['C14'] = {
                     'ts_align (a bin choosing ts_sync / ts_check / idem by flow definition) is not driven directly',
                     'after an injected allocation failure only lifecycle and leak oracles stay armed',
                     'termination of release is decided by the driver watchdog (a run that does not come back is reproduced in a fresh process and reported as class hang)'],
+}
+
+PROPS['C06'] = {
+    'engine': 'ethread', 'quick_time': 40, 'thorough_time': 900,
+    'rule': ('one case = (topology, configuration, plan, schedule): a sink / linear / source worker pipe (real upipe_worker.c, upipe_transfer.c, '
+             'queue sink and source, upipe_pthread_transfer.c) around mock remote pipes (optionally chained with idem), or one or two queue sinks on '
+             'producer threads feeding one queue source on the application thread; queue lengths 1-4 (sometimes 258), with or without a freeze mutex, '
+             'slow remote sink blocking the queue pump, late attach, EINTR on descriptors; the application plan (3-28 operations: input bursts of '
+             'sequence-numbered block buffers, flow definition changes, waits, set_output, commands through an automatic or explicit freeze, flush, '
+             'set_max_length, request register/provide, release at any time) runs from a pump of its own event loop; every thread runs a simulated '
+             'event loop and is preempted at the yield points by the seeded scheduler. Distinct = distinct (plan hash, decision-tape hash).'),
+    'assumptions': [SC, 'threads are fibers: POSIX threads, mutexes and keys are simulated (sim/pthread_sim.c)',
+                    '"no unsynchronised access between the two threads" is decided only through its observable consequences: confinement of every '
+                    'entry into transferred pipes (thread id + mutex owner recorded by the mock pipes), sanitizer-visible corruption and use after free, '
+                    'assertions; a data race that is benign under every sequentially consistent interleaving is invisible',
+                    'flow definition changes are not driven when two sinks feed one source (whichever was queued last wins by design)',
+                    'a run that exhausts its step budget is counted inconclusive, never as a violation'],
+    'technique': 'deterministic simulation with fault injection: real worker / transfer / queue pipes on simulated threads (fibers behind wrapped pthread calls), one simulated event loop per thread, seeded scheduler preempting at every atomic operation, ring access, descriptor I/O and mutex operation; sequence-number, flow-definition, end-of-source, thread-confinement, liveness (quiescence = deadlock) and leak oracles; minimised replay files',
+    'level_note': 'sequential consistency at the announced yield points; sampling, not enumeration; data races without observable consequence are out of reach (see assumptions); trusted base = sim/*, harness/ethread*.c',
+    'design_ref': 'DESIGN.md section 5, E-thread / C06',
 }
 
 TECH = 'deterministic simulation with fault injection: seeded search over schedules / fault sequences, reference-model oracle, minimised replay files'
@@ -249,12 +301,12 @@ LEVEL_TEXT = {
     'C13': 'Seeded exploration of operation histories on 1-3 pumps with up to 3 blockers each; after every operation the back-end activity must equal started && no blocker, every back-end call must be the expected one with the status in force, callbacks only run for active pumps, free notifies each outstanding blocker exactly once. Evidence, not proof.',
     'C07': 'Seeded exploration of interleavings of small client programs on the real ulifo/ufifo/upool at the granularity of single atomic operations and plain ring accesses; every history is checked for linearizability against a sequential model. Evidence, not proof: a clean batch of some millions of distinct schedules; found and fixed a real ABA defect in uring_fifo_pop.',
     'C08': 'Seeded exploration of producers/consumers sleeping on simulated event descriptors around the real uqueue; any quiescent state with work left is a lost wake-up. Found and fixed the counter-based wake-up defect; evidence, not proof.',
+    'C06': 'Seeded exploration of thread interleavings of the real worker, transfer and queue pipes between an application thread and worker / producer threads: every buffer arrives exactly once, in order, under the flow definition it was sent under; end of source only after the last buffer; a full queue holds and later delivers; transferred pipes are only entered from the worker thread or under the freeze mutex; forwarded events arrive on the application thread; everything terminates and nothing stays allocated. Evidence, not proof.',
     'C09': 'Seeded exploration of concurrent use/release on the real urefcount with a harness-side count as oracle (destructor exactly once, never early). Evidence, not proof.',
 }
 
 NOT_YET = 'not claimed yet: engine under construction (DESIGN.md section 10)'
 NOT_APPLICABLE = {
-    'C06': NOT_YET,
     'C12': NOT_YET, 'C15': NOT_YET, 'C16': NOT_YET,
     'C11': 'pure arithmetic on eight integer fields of one uref: no schedule, clock, fault or second party for a simulator to vary (DESIGN.md section 6)',
     'C17': 'NAL conversion / exp-Golomb are pure functions of their input; the framers need bitstream h264/h265 headers that are absent from the sandbox (DESIGN.md section 6)',
